@@ -39,7 +39,9 @@ Plan cal_gen(const std::string &check, const std::string &tier, uint64_t seed, l
     std::string id = check.substr(0, 3);
     bool thorough = tier == "thorough";
     bool c20 = id == "C20", c17 = id == "C17", c10 = id == "C10", c16 = id == "C16" || id == "C11" || id == "C03" || id == "C07";
-    bool c07 = id == "C07";
+    bool c12 = id == "C12";
+    bool c07 = id == "C07" || check.find("store") != std::string::npos;
+    if (c12) c16 = true;
     bool faults = check.find("faulty") != std::string::npos;
     plan.cfg["callback"] = rng.chance(0.85) ? 1 : 0;
     plan.cfg["solo_twin"] = ((c16 && !c07) || c17) ? 1 : 0;
@@ -60,7 +62,7 @@ Plan cal_gen(const std::string &check, const std::string &tier, uint64_t seed, l
 	o.i[5] = rng.chance(0.15);
 	o.i[7] = n;
 	for (int q = 0; q < n; ++q) {
-	    if (q > 0 && rng.chance(0.3)) o.s.push_back(rng.chance(0.7) ? strf("i:%ld", (long)rng.below(3)) : std::string("a:"));
+	    if (q > 0 && rng.chance(0.3)) o.s.push_back(rng.chance(0.7) || c12 ? strf("i:%ld", (long)rng.below(3)) : std::string("a:"));
 	    else o.s.push_back(std::string("k:") + KEYS[rng.below(sizeof KEYS / sizeof *KEYS)]);
 	}
 	if (o.k == "vp_del") for (auto &e : o.s) if (e == "a:") e = "i:0";
@@ -74,6 +76,7 @@ Plan cal_gen(const std::string &check, const std::string &tier, uint64_t seed, l
     plan.cfg["sessions"] = nsess;
     int maxP = thorough ? 3 : (rng.chance(0.25) ? 3 : 2);
     long budget = c16 ? rng.range(20, thorough ? 100 : 70) : rng.range(10, 60);
+    if (c12) { budget = rng.range(8, 30); nsess = (int)rng.range(1, 2); maxP = 2; plan.cfg["strict_enomem"] = 1; plan.cfg["solo_twin"] = 0; }
     plan.cfg["budget"] = budget;
 
     // every plan starts with a few scalar parameters standing for imperfect short / open / match
